@@ -25,6 +25,7 @@ Record LInv (s : node_state) : Prop := {
   li_distinct : forall k k' e e', lookup k (n_ents s) = Some e -> lookup k' (n_ents s) = Some e' ->
                                   e_ver e = e_ver e' -> k = k';
   li_top : n_ents s <> [] -> exists k e, lookup k (n_ents s) = Some e /\ e_ver e = n_ver s;
+  li_zero : n_ents s = [] -> n_ver s = 0;
 }.
 
 Lemma LInv_new id addr : LInv (new_node id addr).
@@ -51,7 +52,7 @@ Lemma LInv_write s k e :
   LInv s -> e_key e = k -> e_ver e = n_ver s + 1 -> e_int e = internal_key k ->
   LInv (write k e s).
 Proof.
-  intros H Hk Hv Hi. destruct H as [Hnd Hkey Hver Hint Hdis Htop].
+  intros H Hk Hv Hi. destruct H as [Hnd Hkey Hver Hint Hdis Htop Hzero].
   constructor; unfold write; cbn [n_ents n_ver set_ents].
   - apply NoDup_insert, Hnd.
   - intros k0 e0. rewrite lookup_insert. destruct (String.eqb k0 k) eqn:E.
@@ -70,6 +71,7 @@ Proof.
     + intros H1 [= <-] Heq. specialize (Hver _ _ H1). lia.
     + apply Hdis.
   - intros _. exists k, e. rewrite lookup_insert_eq. split; [reflexivity|exact Hv].
+  - unfold insert. discriminate.
 Qed.
 
 (* ------------------------------------------------------------------ upsert / delete / leave *)
@@ -107,7 +109,7 @@ Lemma LInv_leave s : LInv s -> LInv (leave_local s).
 Proof.
   intros H. unfold leave_local. destruct (n_left s); [exact H|].
   pose proof (LInv_write s leftKey (mk_entry leftKey "" (n_ver s + 1) true false) H eq_refl eq_refl eq_refl) as Hw.
-  destruct Hw as [A B C D E F]. constructor; cbn in *; assumption.
+  destruct Hw as [A B C D E F G]. constructor; cbn in *; assumption.
 Qed.
 
 (* ------------------------------------------------------------------ compaction *)
@@ -264,7 +266,7 @@ Section Compacted.
 
   Lemma vals_keys : map e_key (values (n_ents s)) = keys (n_ents s).
   Proof.
-    destruct HI as [Hnd Hkey _ _ _ _]. clear -Hnd Hkey. unfold values, keys.
+    destruct HI as [Hnd Hkey _ _ _ _ _]. clear -Hnd Hkey. unfold values, keys.
     induction (n_ents s) as [|[k e] m IH]; cbn; [reflexivity|].
     inversion Hnd as [|? ? Hni Hnd']; subst. f_equal.
     - apply (Hkey k e). cbn. rewrite String.eqb_refl. reflexivity.
@@ -383,6 +385,7 @@ Section Compacted.
     - intros _. exists compactKey. eexists. split.
       + unfold compacted. cbn [n_ents set_ents]. apply lookup_insert_eq.
       + reflexivity.
+    - unfold compacted. cbn [n_ents set_ents]. unfold insert. discriminate.
   Qed.
 End Compacted.
 
